@@ -811,13 +811,14 @@ public:
     replace(size_type pos, size_type count, basic_inplace_string const& str, size_type pos2, size_type count2 = npos)
         -> basic_inplace_string&
     {
-        TETL_PRECONDITION(pos < size());
-        TETL_PRECONDITION(pos2 < str.size());
+        TETL_PRECONDITION(pos <= size());
+        TETL_PRECONDITION(pos2 <= str.size());
 
-        auto* f        = data() + etl::min(pos, size());
-        auto* l        = data() + etl::min(pos + count, size());
-        auto const* sf = etl::next(str.begin(), static_cast<etl::ptrdiff_t>(etl::min(pos2, str.size())));
-        auto const* sl = etl::next(str.begin(), static_cast<etl::ptrdiff_t>(etl::min(pos2 + count2, str.size())));
+        // count and count2 (default npos) are clamped before they are added to a position
+        auto* f        = data() + pos;
+        auto* l        = f + etl::min(count, size() - pos);
+        auto const* sf = str.begin() + pos2;
+        auto const* sl = sf + etl::min(count2, str.size() - pos2);
         detail::str_replace(f, l, sf, sl);
         return *this;
     }
